@@ -30,6 +30,19 @@ def main():
         if pid not in claimed:
             continue
         c = claimed[pid]
+        # the rule list of the built checker (from the evidence of the last run) keeps the claim text complete
+        rules_txt = ""
+        evp = os.path.join(HERE, "evidence", pid + ".json")
+        if os.path.exists(evp):
+            try:
+                rules = json.load(open(evp))["coverage"]["rules"]
+                def key(k):
+                    import re
+                    m = re.match(r"R(\d+)(.*)", k)
+                    return (int(m.group(1)), m.group(2))
+                rules_txt = " Rules (" + str(len(rules)) + "): " + "; ".join(f"{rid} {rules[rid]['doc']}" for rid in sorted(rules, key=key)) + "."
+            except Exception:
+                rules_txt = ""
         checks.append({
             "property_id": pid,
             "quick_cmd": f"./check {pid} quick",
@@ -39,11 +52,11 @@ def main():
             "engine": "fibercheck",
             "level_claimed": {
                 "category": "other",
-                "text": c["level_text"],
+                "text": c["level_text"] + rules_txt,
                 "design_ref": c.get("design_ref", "DESIGN.md §3 " + pid),
             },
             "level_note": c["level_note"] + " " + BASE_NOTE,
-            "technique": c["technique"],
+            "technique": c["technique"] + "; path, lockset and data-dependence queries look into same-package unexported helpers and function literals called in place (callee summaries with result facts)",
         })
     nas = []
     for pid in ids:
